@@ -103,6 +103,11 @@ def declared_dests(prog, ci, setup):
         call = prog.lookup_method(a, "__call__")
         if call is None:
             continue
+        nsparam = call.params[2] if len(call.params) > 2 else None
+        for x in ast.walk(call.node):
+            # `namespace.dest = value` is the same as setattr(namespace, 'dest', value)
+            if isinstance(x, ast.Attribute) and isinstance(x.ctx, ast.Store) and isinstance(x.value, ast.Name) and x.value.id == nsparam:
+                decl.setdefault(x.attr, (x, False))
         for c in [x for x in ast.walk(call.node) if isinstance(x, ast.Call)]:
             if call_name(c) == "setattr" and len(c.args) >= 2 and isinstance(const(c.args[1]), str):
                 decl.setdefault(const(c.args[1]), (c, False))
@@ -422,7 +427,58 @@ def check_optional_object(R, prog, helpers):
     R.floor("OPTIONAL-OBJECT", n, 15)
 
 
+def semantic_php_action(prog):
+    """fold PHPArgs.__call__ for one, two and three numbers: `php N` is N+1 pigeons in N holes, `php M N` is the plain principle (degree
+    equal to the number of holes), `php M N D` has degree D and is refused when D exceeds N"""
+    import types
+    from ..fold import Folder, Raised
+    from ..ql import Unknown
+    ci = prog.cls("cnfgen.clihelpers.php_helpers", "PHPArgs")
+    call = ci.methods.get("__call__")
+    if call is None:
+        return None, "PHPArgs.__call__ not found"
+    mod = prog.modules["cnfgen.clihelpers.php_helpers"]
+    mfuncs = {q: fi.node for q, fi in mod.functions.items() if "." not in q}
+    cases = [(["5"], (6, 5, 5), False), (["0"], (1, 0, 0), False), (["5", "4"], (5, 4, 4), False), (["3", "7"], (3, 7, 7), False),
+             (["5", "4", "3"], (5, 4, 3), False), (["5", "4", "4"], (5, 4, 4), False), (["5", "4", "6"], None, True)]
+    for values, want, err in cases:
+        ns = types.SimpleNamespace()
+
+        def error(*a, **k):
+            raise Raised("SystemExit")
+        parser = types.SimpleNamespace(error=error, prog="cnfgen php")
+        f = Folder(env={})
+        f.opaque_constructors = True
+        f.module_functions = mfuncs
+        try:
+            f.call_function(call.node, [None, parser, ns, list(values)], {})
+            raised = False
+        except Raised as r:
+            raised = True
+        except Unknown as e:
+            return None, "cannot fold PHPArgs.__call__(%s): %s" % (values, e)
+        got = (getattr(ns, "pigeons", None), getattr(ns, "holes", None), getattr(ns, "degree", None))
+        if raised != err or (not err and got != want):
+            return False, "`php %s` sets (pigeons, holes, degree) = %s%s; documented: %s" % (
+                " ".join(values), got, " and reports an error" if raised else "", "an error" if err else want)
+    return True, "%d forms of `php <numbers>` folded" % len(cases)
+
+
 def check_action_defaults(R, prog, helpers):
+    from ._shared import with_semantics
+    ci = prog.cls("cnfgen.clihelpers.php_helpers", "PHPArgs")
+    verdict = semantic_php_action(prog)
+
+    def shape(T):
+        try:
+            _shape_action_defaults(T, prog, helpers)
+        except AnalysisError:
+            if verdict[0] is not True:
+                raise
+    with_semantics(R, P, shape, verdict, "PHPArgs: php N / php M N / php M N D", ci.methods.get("__call__"), rule="ACTION-DEFAULT")
+
+
+def _shape_action_defaults(R, prog, helpers):
     """ACTION-DEFAULT: a custom action that fills several destinations from a variable number of words, and a builder that takes the
     plain family when two of them are equal (`args.A == args.B`): in every branch of the action that has fewer words than destinations
     the two are set from the same word, so the short form is the plain family."""
